@@ -27,6 +27,23 @@ HAMMER = {"threads": [[{"op": "reg", "r": "infix", "name": "uin", "val": "h1", "
                       [{"op": "exec", "r": "infix", "name": "+"}, {"op": "exec", "r": "prefix", "name": "-"}]], "mode": "hammer", "repeat": 3000}
 
 
+# rendez-vous scenarios: a handler of each kind, while it runs, waits until another thread has completed one engine call of each kind
+# (C13: calls from other threads complete whatever a handler on this thread is doing; a lock held across the handler deadlocks them)
+def sync_scenarios():
+    kinds = [("func", "g", "g()"), ("prefix", "upre", "upre 1"), ("postfix", "upost", "1 upost"), ("infix", "uin", "1 uin 2")]
+    others = [{"op": "exec", "r": "func", "name": "min"}, {"op": "exec", "r": "prefix", "name": "-"}, {"op": "exec", "r": "infix", "name": "+"}, {"op": "exec", "r": "postfix", "name": "++"},
+              {"op": "reg", "r": "func", "name": "f2", "val": "h7"}, {"op": "reg", "r": "prefix", "name": "upre2", "val": "h7"}, {"op": "reg", "r": "infix", "name": "uin2", "val": "h7", "prec": 115, "assoc": "L"},
+              {"op": "reg", "r": "postfix", "name": "upost2", "val": "h7"}, {"op": "parse", "text": "a beginWith b ++"}]
+    out = []
+    for r, name, text in kinds:
+        reg = {"op": "reg", "r": r, "name": name, "val": "h1"}
+        if r == "infix":
+            reg.update(prec=115, assoc="L")
+        for o in others:
+            out.append({"threads": [[reg, {"op": "text", "text": text}], [o]], "mode": "free", "sync": {"handler": "h1", "then_thread": 1}})
+    return out
+
+
 # programs that need several registries within one evaluation (an operator applied to an operand built with operators of the
 # other kinds, nested postfix, calls with operator arguments) against tokenizing threads and registrations: lock-order inversions
 T = lambda text: {"op": "text", "text": text}
@@ -72,6 +89,9 @@ def check(run):
                      "BuiltinsComplete, OneLockAtATime, NoLockInHandler, TLC deadlock check, EvalReadsOnly, termination under fairness, and linearizability against the atomic engine "
                      "(LinearizableOrF1: the only non-linearizable histories are evaluations made of several critical sections overlapped by a conflicting call); "
                      "for the initialisation protocol alone, an inductive invariant implying NoPartialInit is discharged by Apalache for 8 threads (initiation, consecution, implication)")
+    run.rules.append("rendez-vous: a handler of each kind (global function, prefix, infix, postfix operator) waits, while it runs, until another thread has completed an evaluation through "
+                     "each registry, a registration in each registry, or a parse (36 scenarios, fresh process each): the other thread's call must complete (no engine lock may be held across a handler); "
+                     "hammer runs: sustained concurrent registration and evaluation, also of programs that use several registries within one evaluation (deadlock, panic, impossible results)")
     run.rules.append("leg R: first-use scenarios executed in fresh child processes under forced schedules (every thread order over the first %d yield points: init stages and registry accesses, "
                      "controller releases one thread per step); the schedule drives, the recorded trace decides; "
                      "leg T: %d free-running stress runs (2-%d threads, registrations and evaluations of fresh names and built-in overrides, fresh process each so that first-use races are real); "
@@ -109,6 +129,15 @@ def check(run):
         elif summ.get("panics"):
             run.violation("C13/hammer", "under sustained load %d calls panicked" % summ.get("panics", 0), {"family": "engine", "scenario": HAMMER2, "summary": summ})
     run.leg("R:hammer", runs=(8 if thorough else 3) + (4 if thorough else 2), threads=6)
+    nsync = 0
+    for sc in sync_scenarios():
+        evs, summ = eng.run_scenario(sc, timeout=60)
+        run.traces += 1
+        nsync += 1
+        if summ.get("deadlock") or summ.get("hung") or "aborted" in summ or summ.get("sync_timeouts") or summ.get("panics"):
+            run.violation("C13/deadlock", "while the %s handler ran on one thread, %s on another thread did not complete (or the run aborted): %s"
+                          % (sc["threads"][0][0]["r"], sc["threads"][1][0], {k2: v for k2, v in summ.items() if k2 != "stderr"}), {"family": "engine", "scenario": sc, "summary": summ})
+    run.leg("R:rendez-vous", scenarios=nsync)
     # the directed F1 scenario: a known finding on the unchanged tree (non-atomic evaluation), anything else is a violation
     evs, summ = eng.run_scenario(F1_SCENARIO)
     if summ.get("deadlock") or "aborted" in summ:
